@@ -25,6 +25,21 @@ def sh(cmd, cwd, timeout=3600, env=None):
     return p.returncode, p.stdout + p.stderr
 
 
+def apply_patch(wt, patch):
+    """git apply; hook sites added to /repo after a patch was written can shift its context: fall back to a 3-way merge, then
+    to patch(1) with fuzz."""
+    rc, out = sh(["git", "apply", patch], wt)
+    if rc == 0:
+        return rc, out
+    rc2, out2 = sh(["git", "apply", "--3way", patch], wt)
+    if rc2 == 0:
+        sh(["git", "reset", "-q"], wt)
+        return 0, out2
+    sh(["git", "checkout", "-q", "--", "."], wt)
+    rc3, out3 = sh("patch -p1 --fuzz=3 --no-backup-if-mismatch < %s" % patch, wt)
+    return rc3, out + out2 + out3
+
+
 def main():
     ap = argparse.ArgumentParser()
     ap.add_argument("dir")
@@ -60,7 +75,7 @@ def main():
                 rc0, o0 = sh("go test %s -count=1 -run . ./%s/ 2>&1 | tail -15" % ("-race" if race else "", demo_pkg), wt)
                 ev["demo_without_patch"] = "pass" if re.search(r"^ok\s", o0, re.M) and "FAIL" not in o0 else "FAIL"
                 os.remove(demo_dst)
-            rc, out = sh(["git", "apply", patch], wt)
+            rc, out = apply_patch(wt, patch)
             if rc != 0:
                 print("patch does not apply:\n" + out)
                 ev["patch_applies"] = False
@@ -79,7 +94,7 @@ def main():
                 ev["demo_with_patch_tail"] = o1[-500:]
                 os.remove(demo_dst)
         else:
-            rc, out = sh(["git", "apply", patch], wt)
+            rc, out = apply_patch(wt, patch)
             if rc != 0:
                 print("patch does not apply:\n" + out)
                 return 2
